@@ -140,8 +140,13 @@ N_DIV_DEP = [0]  # number of divisions whose divisor depends on inputs (grid poi
 N_SC_CMP = [0]   # number of scalar comparisons evaluated (a suite can assert that a computation is branch-free in values)
 
 
+SELFCHECK_MACROS = ("DURING_TEST_CHECK_VALIDITY", "DURING_TEST_CHECK_VALIDITY_OF")
+_IN_SELFCHECK = [0]
+
+
 def sc_cmp(op, a, b):
-    N_SC_CMP[0] += 1
+    if not _IN_SELFCHECK[0]:
+        N_SC_CMP[0] += 1
     if a.v is None or b.v is None:
         raise OutOfFragment("comparison of value-dependent scalars (%r %s %r)" % (a, op, b))
     if a.v == NAN or b.v == NAN:
@@ -195,7 +200,7 @@ def sc_arith(op, a, b):
         return Sc(NAN, deps, lin=None, mono=None)
     if op == "/" and a is b and a.v is None:
         return Sc(1)   # the very same (opaque, non-zero) value divided by itself
-    if op == "/" and b.deps:
+    if op == "/" and b.deps and not _IN_SELFCHECK[0]:
         N_DIV_DEP[0] += 1   # division by a quantity derived from inputs: the result is no polynomial of the inputs
     lin, pure = _lin_arith(op, a, b)
     mono = _mono_arith(op, a, b)
@@ -727,6 +732,14 @@ class Interp:
     def exec(self, s):
         if s is None:
             return
+        if (s.get("m") in SELFCHECK_MACROS or s.get("mo") in SELFCHECK_MACROS) and not _IN_SELFCHECK[0]:
+            # statements of the optional self-checks (BSPLINE_ADD_TEST_CHECKS): their comparisons validate, they do not
+            # take part in the computation (R-CFGI decides that they are effect-free)
+            _IN_SELFCHECK[0] += 1
+            try:
+                return self.exec(s)
+            finally:
+                _IN_SELFCHECK[0] -= 1
         self.steps += 1
         if self.steps > self.MAXSTEPS:
             raise OutOfFragment("evaluation budget exceeded")
